@@ -1,8 +1,8 @@
 #!/usr/bin/env python3
 import json,sys
-pid=sys.argv[1]; n=sys.argv[2] if len(sys.argv)>2 else "3"
+pid=sys.argv[1]; n=sys.argv[2] if len(sys.argv)>2 else "3"; first=int(sys.argv[3]) if len(sys.argv)>3 else 1
 props={json.loads(l)['id']:json.loads(l) for l in open('/verif/properties.jsonl')}
 p=props[pid]
 t=open('/verif/tools/agent_prompt.txt').read()
 prop="%s — %s\n  %s\n  (quantified over: %s)"%(pid,p['title'],p['statement'],p['quantifier']['text'])
-print(t.replace('@WT@','/tmp/wt/'+pid).replace('@OUT@','/tmp/wtout/'+pid).replace('@PROP@',prop).replace('@N@',n))
+print(t.replace('@WT@','/tmp/wt/'+pid).replace('@OUT@','/tmp/wtout/'+pid).replace('@PROP@',prop).replace('@N@',n).replace('@FIRST@',str(first)).replace('@LAST@',str(first+int(n)-1)))
